@@ -35,6 +35,11 @@ def jobs(ctx):
         if li and not ctx.thorough and strat not in ('sorted', 'timesorted'):
           continue
         out.append((p, (b, fb)))
+        if li == 0 and strat in ('timesorted', 'sorted'):
+          # the stop as the daemon's own service object performs it (WriterService started for real; twisted's 'before
+          # shutdown' triggers, then stopService), also after one of its periodic reload tasks has died
+          for dead in (False, True):
+            out.append((dict(p, service_stop=True, reload_task_dead=dead), (1, fb)))
         if lim.get('max_updates') and strat in ('sorted', 'random'):
           # the clock moving inside a blocking token acquisition (a descheduled writer) is an environment choice
           out.append((dict(p, clock_jumps=True), (1, fb + 1)))
